@@ -10,6 +10,7 @@ Helper lemmas: GrcovModel/Lemmas/Pipeline.lean.
 -/
 import GrcovModel.Lemmas.Pipeline
 import GrcovModel.Lemmas.Report
+import GrcovModel.Props.C02Run
 namespace Grcov.Props.C02
 open Grcov Grcov.AList Grcov.Pipeline Grcov.Report Grcov.Props.C01
 
